@@ -136,7 +136,7 @@ func (fx *FuncVC) runBody(fr *frame) []retPoint {
 	if fn.Blocks == nil {
 		panic(unsupported("function %s has no body", fn))
 	}
-	if fn.Recover != nil {
+	if fn.Recover != nil && callsRecover(fn) {
 		panic(unsupported("function %s uses recover", fn))
 	}
 	fr.loops = fx.analyzeLoops(fn)
